@@ -156,6 +156,61 @@ class Ctx:
     def encoded(self, prog, body):
         self.functions.append({'name': body.name, 'blocks': len(body.blocks), 'dump_hash': prog.info['dump_hash'], 'line': body.line})
 
+    # ------------------------------------------------------------------ parallel sub-runs (one process per instance)
+    def export(self):
+        return {'obligations': self.obligations, 'witnesses': self.witnesses, 'samples': self.samples, 'inconclusive': self.inconclusive,
+                'violations': self.violations, 'solver_s': self.solver_s, 'queries': self.queries, 'cross': self.cross, 'extra': self.extra,
+                'models_used': sorted(self.models_used), 'allow_used': sorted(self.allow_used), 'inlined': sorted(self.inlined), 'paths': self.paths,
+                'translator_validated': self.translator_validated, 'functions': self.functions}
+
+    def merge(self, d):
+        for o in d['obligations']:
+            o.pop('model', None)
+        self.obligations += d['obligations']
+        self.witnesses += d['witnesses']
+        self.samples += d['samples']
+        self.inconclusive += d['inconclusive']
+        self.violations += d['violations']
+        self.solver_s += d['solver_s']
+        for k in self.queries:
+            self.queries[k] += d['queries'].get(k, 0)
+        for k in self.cross:
+            self.cross[k] += d['cross'].get(k, 0)
+        for k, v in d['extra'].items():
+            if isinstance(v, list):
+                self.extra.setdefault(k, []).extend(v)
+            elif isinstance(v, (int, float)) and not isinstance(v, bool):
+                self.extra[k] = self.extra.get(k, 0) + v
+            elif isinstance(v, dict):
+                self.extra.setdefault(k, {}).update(v)
+            else:
+                self.extra[k] = v
+        self.models_used |= set(d['models_used'])
+        self.allow_used |= set(d['allow_used'])
+        self.inlined |= set(d['inlined'])
+        self.paths += d['paths']
+        self.translator_validated += d['translator_validated']
+        for f in d['functions']:
+            if f not in self.functions:
+                self.functions.append(f)
+
+    def parallel(self, fn, arglist, procs=None):
+        """run fn(sub_ctx, *args) for each args in arglist in forked worker processes; merge the results"""
+        import multiprocessing as mp
+        procs = procs or min(len(arglist), int(os.environ.get('VERIF_PROCS', '12')))
+        if procs <= 1 or len(arglist) <= 1 or os.environ.get('VERIF_SERIAL') == '1':
+            for a in arglist:
+                sub = Ctx(self.prop_id, self.tier, self.seed)
+                sub.timeout_ms = self.timeout_ms
+                _worker_body(fn, sub, a)
+                self.merge(sub.export())
+            return
+        ctxm = mp.get_context('fork')
+        with ctxm.Pool(procs) as pool:
+            res = [pool.apply_async(_worker, (fn, self.prop_id, self.tier, self.seed, self.timeout_ms, a)) for a in arglist]
+            for r in res:
+                self.merge(r.get())
+
     # ------------------------------------------------------------------ finish
     def finish(self):
         known = load_known()
@@ -220,6 +275,23 @@ class Ctx:
         print('OK property=%s tier=%s obligations=%d/%d witnesses=%d solver=%.1fs wall=%.1fs' % (
             self.prop_id, self.tier, n_proved, n_ob, n_wit, self.solver_s, time.time() - self.t0))
         return 0
+
+
+def _worker_body(fn, sub, a):
+    try:
+        fn(sub, *a)
+    except Exception as e:   # noqa
+        sub.inconclusive.append('%s: %s' % (type(e).__name__, str(e)[:600]))
+        sub.extra.setdefault('exception_tails', []).append(traceback.format_exc().strip().split('\n')[-6:])
+        if os.environ.get('VERIF_DEBUG'):
+            traceback.print_exc()
+
+
+def _worker(fn, prop_id, tier, seed, timeout_ms, a):
+    sub = Ctx(prop_id, tier, seed)
+    sub.timeout_ms = timeout_ms
+    _worker_body(fn, sub, a)
+    return sub.export()
 
 
 def safe(s):
